@@ -46,7 +46,7 @@ CONT_DOC = """/**
 
 def proto(m):
     recv = {"ref": "const CGlueC *cont", "mut": "CGlueC *cont", "own": "CGlueC cont"}[m["recv"]]
-    args = "".join(", " + cbgen.decl(CPPTYPE[t], "a%d" % i) for i, t in enumerate(m["args"]))
+    args = "".join(", " + cbgen.decl(CPPTYPE[t], cbgen.pname(i)) for i, t in enumerate(m["args"]))
     ret = CPPTYPE[m["ret"]]
     return "%s%s(*%s)(%s%s);" % (ret, "" if ret.endswith("*") else " ", m["name"], recv, args)
 
